@@ -23,12 +23,23 @@ def run_demo(src, wt):
         return 99, "no demo found"
     names = []
     copied = []
+    extra_dirs = []
+    tp = os.path.join(demo, "testpackages")
+    if os.path.isdir(tp):
+        for d in os.listdir(tp):
+            dst = os.path.join(wt, "pkg/moq/testpackages", d)
+            if not os.path.exists(dst):
+                shutil.copytree(os.path.join(tp, d), dst); extra_dirs.append(dst)
+    pkgdir = {"main": ".", "moq": "pkg/moq", "moq_test": "pkg/moq", "registry": "internal/registry", "template": "internal/template", "main_test": "."}
     for t in tests:
-        dst = os.path.join(wt, "pkg/moq", os.path.basename(t))
+        m = re.search(r"^package (\w+)", open(t).read(), re.M)
+        sub = pkgdir.get(m.group(1) if m else "moq", "pkg/moq")
+        dst = os.path.join(wt, sub, os.path.basename(t))
         shutil.copy(t, dst); copied.append(dst)
         names += re.findall(r"^func (Test\w+)\(", open(t).read(), re.M)
-    rc, out = sh("go test -vet=off -count=1 -run '^(%s)$' ./pkg/moq/" % "|".join(names), cwd=wt, timeout=900)
+    rc, out = sh("go test -vet=off -count=1 -run '^(%s)$' ./ ./pkg/moq/ ./internal/..." % "|".join(names), cwd=wt, timeout=900)
     for c in copied: os.remove(c)
+    for d in extra_dirs: shutil.rmtree(d, ignore_errors=True)
     return rc, out
 
 def verify(prop, v):
